@@ -101,7 +101,7 @@ def drive_(a, rng):
             case["ops"].append(dict(op=op, base="a2", shift=shift, newL=newL, b=A(r)))
     if ts.num_sites:
         ids = rng.sample(range(ts.num_sites), rng.randint(0, ts.num_sites))
-        r = ts.delete_sites(ids, record_provenance=False)
+        r = ts.delete_sites(gen.arg_form(rng, ids), record_provenance=False)
         case["ops"].append(dict(op="delete_sites", base="in", ids=ids, b=A(r.dump_tables())))
     # cutoff times on the doubled grid: below, at, between and above node times
     t2 = rng.randint(-1, 2 * max(a["time"]) + 1)
